@@ -400,8 +400,8 @@ func checkLoaderShape(rep *core.Report, r4 *core.RuleRun) {
 		if obj == nil || obj.Parent() == nil || obj.Parent() == obj.Pkg().Scope() || obj == pObj {
 			return e
 		}
-		var def ast.Expr
-		ndef, other := 0, false
+		var def, assigned ast.Expr
+		ndef, nassign, other, zeroDecl := 0, 0, false, false
 		ast.Inspect(loader.Body, func(n ast.Node) bool {
 			switch x := n.(type) {
 			case *ast.AssignStmt:
@@ -418,7 +418,13 @@ func checkLoaderShape(rep *core.Report, r4 *core.RuleRun) {
 							other = true
 						}
 					} else if info.Uses[lid] == types.Object(obj) {
-						other = true
+						// `var r T` followed by one `r = e` (the result variable of a helper placed at its call site)
+						nassign++
+						if len(x.Lhs) == len(x.Rhs) && x.Tok == token.ASSIGN {
+							assigned = x.Rhs[i]
+						} else {
+							other = true
+						}
 					}
 				}
 			case *ast.ValueSpec:
@@ -427,6 +433,8 @@ func checkLoaderShape(rep *core.Report, r4 *core.RuleRun) {
 						ndef++
 						if len(x.Values) == len(x.Names) {
 							def = x.Values[i]
+						} else if len(x.Values) == 0 {
+							zeroDecl = true
 						} else {
 							other = true
 						}
@@ -449,8 +457,11 @@ func checkLoaderShape(rep *core.Report, r4 *core.RuleRun) {
 			}
 			return true
 		})
-		if ndef == 1 && !other && def != nil {
+		if ndef == 1 && !other && def != nil && nassign == 0 {
 			return defOf(def, depth+1)
+		}
+		if ndef == 1 && !other && zeroDecl && nassign == 1 && assigned != nil {
+			return defOf(assigned, depth+1)
 		}
 		return e
 	}
@@ -462,7 +473,9 @@ func checkLoaderShape(rep *core.Report, r4 *core.RuleRun) {
 		return
 	}
 	kf, vf := structLitFields(info, klit), structLitFields(info, vlit)
-	is := func(e ast.Expr, o types.Object) bool { return e != nil && o != nil && objOf(info, e) == o }
+	is := func(e ast.Expr, o types.Object) bool {
+		return e != nil && o != nil && (objOf(info, e) == o || objOf(info, ast.Unparen(defOf(e, 0))) == o)
+	}
 	r4.Check(is(kf["EnterpriseNo"], penObj) && is(kf["ElementID"], idObj), name+":key", klit.Pos(),
 		"key = {outer key, inner key}", "store key is not {enterprise number, element id} of the current entry")
 	r4.Check(is(vf["FieldID"], idObj), name+":FieldID", vlit.Pos(), "FieldID = inner key", "FieldID is not the element id the entry is keyed by")
@@ -472,7 +485,7 @@ func checkLoaderShape(rep *core.Report, r4 *core.RuleRun) {
 			return nil, 0, false
 		}
 		c, ok := constInt(info, x.Index)
-		return objOf(info, x.X), c, ok
+		return objOf(info, ast.Unparen(defOf(x.X, 0))), c, ok
 	}
 	o, c, ok := idxOf(vf["Name"])
 	r4.Check(ok && o == pObj && c == 0, name+":Name", vlit.Pos(), "Name = p[0]", "Name is not item 0 of the entry")
@@ -584,13 +597,47 @@ func checkLoaderShape(rep *core.Report, r4 *core.RuleRun) {
 		}
 		leaves := func(n ast.Node) bool {
 			found := false
+			// labels declared inside n, and the breakable / loop statements nested in it: a break or continue that
+			// targets one of them stays inside n (the `break L` of a helper placed at its call site, a break out of an
+			// inner switch)
+			localLabels := map[string]bool{}
+			type span struct{ pos, end token.Pos }
+			var breakables, loops []span
+			ast.Inspect(n, func(m ast.Node) bool {
+				switch x := m.(type) {
+				case *ast.FuncLit:
+					return false
+				case *ast.LabeledStmt:
+					localLabels[x.Label.Name] = true
+				case *ast.ForStmt, *ast.RangeStmt:
+					breakables = append(breakables, span{m.Pos(), m.End()})
+					loops = append(loops, span{m.Pos(), m.End()})
+				case *ast.SwitchStmt, *ast.TypeSwitchStmt, *ast.SelectStmt:
+					breakables = append(breakables, span{m.Pos(), m.End()})
+				}
+				return true
+			})
+			within := func(list []span, at token.Pos) bool {
+				for _, sp := range list {
+					if sp.pos <= at && at < sp.end {
+						return true
+					}
+				}
+				return false
+			}
 			ast.Inspect(n, func(m ast.Node) bool {
 				switch x := m.(type) {
 				case *ast.FuncLit:
 					return false
 				case *ast.BranchStmt:
-					found = true
-					_ = x
+					switch {
+					case x.Label != nil && localLabels[x.Label.Name] && x.Tok != token.GOTO:
+					case x.Label == nil && x.Tok == token.BREAK && within(breakables, x.Pos()):
+					case x.Label == nil && x.Tok == token.CONTINUE && within(loops, x.Pos()):
+					case x.Tok == token.FALLTHROUGH:
+					default:
+						found = true
+					}
 				case *ast.ReturnStmt:
 					found = true
 				case *ast.CallExpr:
